@@ -641,7 +641,9 @@ MUTANTS = [
         yield table["chromosome"].iat[0], table, other""", new="""    table_chr = table["chromosome"].unique()
     if len(table_chr) == 1 and (other["chromosome"] == table_chr[0]).any():
         yield table_chr[0], table, other"""),
-    dict(name="twin: shortcut by .all() on unique()", expect="silent", file=_I, old="""    table_chr, other_chr = set(table["chromosome"]), set(other["chromosome"])
+    # (kept as a twin until round 11: with an EMPTY data table `(other == c).all()` is vacuously true, the shortcut is taken and one result comes back for all the query ranges --
+    #  the same slip as seed C07q; the empty-table layouts of D7 showed that the "twin" was never behaviour-preserving)
+    dict(name="shortcut by .all() on unique(): vacuously true for an empty table", file=_I, old="""    table_chr, other_chr = set(table["chromosome"]), set(other["chromosome"])
     if len(table_chr) == 1 and table_chr == other_chr:
         yield table["chromosome"].iat[0], table, other""", new="""    table_chr = table["chromosome"].unique()
     if len(table_chr) == 1 and (other["chromosome"] == table_chr[0]).all():
